@@ -367,6 +367,52 @@ where
             ww.p[dst] = ww.p[a].signum();
             env.res(pid, dst);
         }
+        "rt" => {
+            // re-derivation: (ideally) the same value again by another route
+            let x = &ww.p[a];
+            if !tame(x) {
+                return env.skip();
+            }
+            let k = (op.n.unsigned_abs() % 40) as usize;
+            let r = match form % 9 {
+                0 => x.clone().with_precision(if x.precision() == 0 { 0 } else { x.precision() + k }).value(),
+                1 => (x.clone() << k as isize) >> k as isize,
+                2 => {
+                    // un-normalised parts: significand * B^k, exponent - k
+                    let sig = x.repr().significand() * IBig::from(B).pow(k);
+                    let f = FBig::<R, B>::from_parts(sig, x.repr().exponent() - k as isize);
+                    let p = if x.precision() == 0 { 0 } else { x.precision().max(f.precision()) };
+                    f.with_precision(p).value()
+                }
+                3 => -(-x.clone()),
+                4 => {
+                    let y: FBig<mode::Up, B> = x.clone().with_rounding();
+                    y.with_rounding()
+                }
+                5 => {
+                    let s = format!("{:?}", x.repr().significand());
+                    let _ = s;
+                    let (sig, e) = x.clone().into_repr().into_parts();
+                    FBig::from_repr(Repr::new(sig, e), x.context())
+                }
+                6 => {
+                    let mut c = FBig::<R, B>::from_parts(IBig::from(B).pow(k + 3) + IBig::ONE, -3);
+                    c.clone_from(x);
+                    c
+                }
+                7 => x.clone() * Sign::Positive,
+                _ => {
+                    if x.precision() == 0 || x.digits() > x.precision() || x.repr().exponent().abs() > 300 {
+                        return env.skip();
+                    }
+                    // x + 0 and x * 1 at the same precision are exact
+                    let one = FBig::<R, B>::ONE.with_precision(x.precision()).value();
+                    (x + FBig::<R, B>::ZERO) * one
+                }
+            };
+            ww.p[dst] = r;
+            env.res(pid, dst);
+        }
         "clone" => {
             let c = ww.p[a].clone();
             ww.p[dst] = c;
